@@ -34,7 +34,7 @@ RUNS = [([], None), (["create"], None), (["fix"], None), (["trim"], None), (["cr
 
 
 def bounds(tier):
-    return {"configs": CFGS, "depth_per_config": [_depth(tier, i) for i in range(len(CFGS))], "session_events": len(RUNS), "edit_events": 4}
+    return {"fixed_histories": {"suffix_pairs": len(SITES) * (len(SITES) - 1), "flows": list(H_FLOWS), "cwd_histories": 18}, "configs": CFGS, "depth_per_config": [_depth(tier, i) for i in range(len(CFGS))], "session_events": len(RUNS), "edit_events": 4}
 
 
 def _depth(tier, ci):
@@ -172,7 +172,162 @@ def check_transition(prev, cfg, ev, new, r, stray):
     return viol
 
 
+# ------------------------------------------------------------------ fixed histories with invariant oracles
+# (suffix variants of one byte content, sessions started from different directories with a relative storage-dir)
+
+SITES = {"txt": "outsource('payload')", "bin": "outsource(b'payload')", "json": "outsource('payload', suffix='.json')",
+         "btxt": "outsource(b'payload', suffix='.txt')", "other": "outsource('other-data')", "png": "outsource(b'\\x89PNG\\x00', suffix='.png')"}
+SITE_DATA = {"txt": (b"payload", ".txt"), "bin": (b"payload", ".bin"), "json": (b"payload", ".json"), "btxt": (b"payload", ".txt"),
+             "other": (b"other-data", ".txt"), "png": (b"\x89PNG\x00", ".png")}
+H_FLOWS = {
+    "together": [("both", ["create"]), ("both", []), ("both", ["trim"]), ("both", [])],
+    "one-then-other": [("first", ["create"]), ("both", ["create"]), ("both", []), ("both", ["trim"]), ("both", [])],
+    "fix-to-other": [("first", ["create"]), ("swap", ["fix"]), ("swap", []), ("swap", ["trim"]), ("swap", [])],
+    "remove-one-then-trim": [("both", ["create"]), ("first", ["trim"]), ("first", []), ("both", [])],
+}
+
+
+def _hist_cases(tier):
+    cases = []
+    kinds = list(SITES)
+    for a in kinds:
+        for b in kinds:
+            if a == b:
+                continue
+            for flow in H_FLOWS:
+                for hl in ((12,) if tier == "quick" else (12, 64, 3)):
+                    cases.append({"hist": "suffix", "a": a, "b": b, "flow": flow, "hl": hl})
+    for layout in ("tests-subdir", "nested-subdir"):
+        for sd in ("snapshots", "../store", ".inline-snapshot"):
+            for order in (["root", "sub", "root", "sub"], ["sub", "root", "sub", "root"], ["sub", "sub", "root", "root"]):
+                cases.append({"hist": "cwd", "layout": layout, "sd": sd, "order": order})
+    return cases
+
+
+def _hist_file(kinds, prev_text):
+    """Test file with one test per site kind; references already written for a kind are kept."""
+    old = {}
+    if prev_text:
+        for m in re.finditer(r"def test_(\w+)\(\):\n    assert .*? == snapshot\((.*)\)\n", prev_text):
+            old[m.group(1)] = m.group(2)
+    imp = "from inline_snapshot import snapshot, outsource" + (", external" if any("external(" in v for v in old.values()) else "") + "\n\n\n"
+    return imp + "\n\n".join("def test_%s():\n    assert %s == snapshot(%s)\n" % (k, SITES[k], old.get(k, "")) for k in kinds)
+
+
+def _hist_invariants(V, d, files, sp, kinds_by_file, label):
+    """I1 name = sha256(content); I2 every reference written resolves to exactly one persisted file holding the outsourced bytes;
+    I3 no persisted file without a reference (after trim: none unreferenced at all is not required)."""
+    import os
+    from ..drivers import plugin
+
+    after = plugin.listing(d)
+    store = {k[len(sp):]: v for k, v in after.items() if k.startswith(sp) and not k.endswith(".gitignore")}
+    for name, content in store.items():
+        stem = name.split(".")[0].replace("-new", "")
+        if hashlib.sha256(content).hexdigest() != stem:
+            V("name-is-not-sha256-of-content", "%s: %s" % (label, name))
+    for f, kinds in kinds_by_file.items():
+        text = after[f].decode()
+        for k in kinds:
+            m = re.search(r"def test_%s\(\):\n    assert .*? == snapshot\(external\(\"([0-9a-f]*)(\*?)(\.\w+)\"\)\)" % k, text)
+            if not m:
+                continue
+            data, suffix = SITE_DATA[k]
+            cand = [n for n in store if "-new" not in n and n.startswith(m.group(1)) and n.endswith(m.group(3))]
+            if m.group(3) != suffix:
+                V("reference-has-wrong-suffix", "%s: test_%s -> %s" % (label, k, m.group(0)[-60:]))
+            elif len(cand) != 1:
+                V("written-reference-has-no-unique-persisted-file", "%s: test_%s references %s%s%s, persisted %s" % (label, k, m.group(1), m.group(2), m.group(3), sorted(n[:8] + n[64:] for n in store)))
+            elif store[cand[0]] != data:
+                V("external-data-differs-from-outsourced-data", "%s: test_%s" % (label, k))
+    return store, after
+
+
+def _run_hist(case):
+    import os
+    from ..drivers import plugin
+
+    viol = []
+
+    def V(what, detail):
+        viol.append({"case": case, "what": what, "detail": detail})
+
+    n = 0
+    if case["hist"] == "suffix":
+        a, b = case["a"], case["b"]
+        pp = "[tool.inline-snapshot]\nhash-length = %d\n" % case["hl"]
+        d = plugin.mk_project({"pyproject.toml": pp})
+        sp = ".inline-snapshot/external/"
+        try:
+            text = None
+            prev_new = set()
+            for step, (which, flags) in enumerate(H_FLOWS[case["flow"]]):
+                kinds = {"both": [a, b], "first": [a], "swap": [b]}[which]
+                if which == "swap" and text:
+                    # the test of kind a now outsources what kind b outsources: a pending fix of an existing reference
+                    text = text.replace("def test_%s():\n    assert %s ==" % (a, SITES[a]), "def test_%s():\n    assert %s ==" % (b, SITES[b]))
+                    src = text
+                else:
+                    src = _hist_file(kinds, text)
+                plugin.write_files(d, {"test_h.py": src})
+                r = plugin.session(d, ["--inline-snapshot=" + ",".join(flags)] if flags else [])
+                n += 1
+                label = "step %d (%s %s)" % (step, which, flags)
+                if plugin.internal_error(r["out"]) or r["rc"] not in (0, 1):
+                    V("internal-error", "%s rc=%s %s" % (label, r["rc"], r["out"][-600:]))
+                    break
+                store, after = _hist_invariants(V, d, None, sp, {"test_h.py": kinds}, label)
+                text = after["test_h.py"].decode()
+                stale = [x for x in store if "-new" in x and x in prev_new and not any(
+                    hashlib.sha256(SITE_DATA[k][0]).hexdigest() + "-new" + SITE_DATA[k][1] == x for k in kinds)]
+                if stale:
+                    V("stale-new-file-survived-session-start", "%s: %s" % (label, stale))
+                prev_new = {x for x in store if "-new" in x}
+                if not flags and "snapshot()" not in text and r["rc"] != 0:
+                    V("plain-session-fails-after-approved-sessions", "%s rc=%s %s" % (label, r["rc"], r["out"][-500:]))
+                if viol:
+                    break
+        finally:
+            plugin.cleanup()
+    else:
+        sub = "tests" if case["layout"] == "tests-subdir" else "pkg/tests"
+        pp = '[tool.inline-snapshot]\nstorage-dir = "%s"\n' % case["sd"]
+        root = plugin.mk_project({})
+        d = os.path.join(root, "proj")
+        plugin.write_files(d, {"pyproject.toml": pp, sub + "/test_h.py": _hist_file(["txt", "other"], None)})
+        sdir = os.path.normpath(os.path.join(d, case["sd"]))
+        try:
+            for step, where in enumerate(case["order"]):
+                flags = ["create"] if step == 0 else []
+                cwd = d if where == "root" else os.path.join(d, sub)
+                r = plugin.session(cwd, (["--inline-snapshot=create"] if flags else []) + ([sub] if where == "root" else []))
+                n += 1
+                label = "step %d (cwd=%s %s)" % (step, where, flags)
+                if plugin.internal_error(r["out"]) or r["rc"] not in (0, 1):
+                    V("internal-error", "%s rc=%s %s" % (label, r["rc"], r["out"][-600:]))
+                    break
+                allfiles = plugin.listing(root)
+                ext = [k for k in allfiles if "/external/" in k and not k.endswith(".gitignore")]
+                prefix = os.path.relpath(sdir, root) + "/external/"
+                outside = [k for k in ext if not k.startswith(prefix)]
+                if outside:
+                    V("file-outside-storage-dir", "%s: %s (storage-dir resolves to %s)" % (label, outside, prefix))
+                if step > 0:
+                    news = [k for k in ext if "-new" in k]
+                    if news:
+                        V("stale-new-file-survived-session-start", "%s: %s" % (label, news))
+                    if r["rc"] != 0:
+                        V("plain-session-fails-after-approved-sessions", "%s rc=%s %s" % (label, r["rc"], r["out"][-500:]))
+                if viol:
+                    break
+        finally:
+            plugin.cleanup()
+    return viol, n
+
+
 def run_case(case):
+    if "hist" in case:
+        return _run_hist(case)[0]
     if "probe" in case:
         return _probe(case["probe"])
     new, r, stray = run_session(case["state"], case["cfg"], case["event"])
@@ -181,6 +336,19 @@ def run_case(case):
 
 def run_task(task):
     out = {"n": 0, "nontrivial": [], "outcomes": {}, "violations": [], "samples": [], "states": [], "transitions": 0, "validated": 0, "next": []}
+    if "hists" in task:
+        for c in task["hists"]:
+            v, n = _run_hist(c)
+            out["n"] += 1
+            out["transitions"] += n
+            out["violations"] += v
+            lab = "viol:" + v[0]["what"] if v else "ok:history:" + c["hist"]
+            out["outcomes"][lab] = out["outcomes"].get(lab, 0) + 1
+            if not v:
+                out["validated"] += n
+                out["nontrivial"].append("hist" + json.dumps(c, sort_keys=True))
+        out.pop("next", None)
+        return out
     if "probes" in task:
         for p in task["probes"]:
             v = _probe(p)
@@ -251,6 +419,10 @@ def explore(tier, seed, runner):
             if not frontier:
                 break
         allstates += len(seen)
+    hc = _hist_cases(tier)
+    htasks = [{"hists": hc[i : i + 4]} for i in range(0, len(hc), 4)]
+    for t, r in zip(htasks, runner(htasks)):
+        done.append(({"hists": len(t["hists"])}, r))
     probes = _probes()
     ptasks = [{"probes": probes[i : i + 40]} for i in range(0, len(probes), 40)]
     for t, r in zip(ptasks, runner(ptasks)):
